@@ -14,6 +14,7 @@
 
 using namespace ex;
 
+#include <dlfcn.h>
 #include <sys/mman.h>
 static vj::Args args;
 static std::string dbDir;
@@ -290,6 +291,7 @@ struct Explorer {
           if (node.cancels < maxCancels) {
             // cancellation at every step of every explored schedule of this build
             for (auto& hh : uncancelled) {
+              if (args.prop == "C01" && !hh.back().choices.empty()) continue;  // C01: cancellation points of the default schedule only
               RunOut base = run(hh, false, false);
               for (int i = 1; i <= base.last.steps; ++i) {
                 History hc = hh;
@@ -424,7 +426,21 @@ static void lockMatrix(const uv::World& w, vj::Result& res);
 static void exploreWorld(const std::string& spec, const std::string& modeName, vj::Result& res) {
   uv::World w;
   std::string err;
-  if (!uv::parseWorld(spec, w, &err)) { fprintf(stderr, "bad world: %s\n", err.c_str()); exit(3); }
+  if (modeName.compare(0, 7, "@graphs") != 0 && !uv::parseWorld(spec, w, &err)) { fprintf(stderr, "bad world: %s\n", err.c_str()); exit(3); }
+  if (modeName.compare(0, 7, "@graphs") == 0) {
+    // "@graphs <n> <lo> <hi> <maxdeg>": all directed graphs on n keys with masks in [lo,hi)
+    int n = 0, maxdeg = 99;
+    unsigned long long lo = 0, hi = 0;
+    sscanf(modeName.c_str(), "@graphs %d %llu %llu %d", &n, &lo, &hi, &maxdeg);
+    for (unsigned long long mask = lo; mask < hi; ++mask) {
+      bool ok = true;
+      for (int i = 0; i < n && ok; ++i) if (__builtin_popcountll((mask >> (i * n)) & ((1ull << n) - 1)) > maxdeg) ok = false;
+      if (!ok) continue;
+      if (args.overBudget()) { res.exhaustive = false; res.count("budget_hit"); break; }
+      exploreWorld(graphWorld(n, mask), "mem", res);
+    }
+    return;
+  }
   if (modeName == "@matrix") { versionMatrix(w, res); return; }
   if (modeName == "@lock") { lockMatrix(w, res); return; }
   Mode_ m;
@@ -434,7 +450,17 @@ static void exploreWorld(const std::string& spec, const std::string& modeName, v
   bool T = args.thorough();
   if (p == "C01") {
     ex.cfg.checkC02 = false; ex.cfg.checkProto = false; ex.cfg.checkPersist = false; ex.cfg.checkC07 = false;
-    ex.bfs(T ? 5 : 4, 1, 0, false);
+    // "After any sequence of earlier builds" includes builds that failed or were
+    // cancelled half-way: in database mode one cancelled build per history is part
+    // of the space (without a database C05 covers the same-engine case).
+    bool withCancel = m.useDB && m.keyset == 0 && !m.syncDefault;
+    if (!T) {
+      // quick tier: only the first dozen curated worlds carry a cancelled build (all of them in thorough)
+      int idx = -1;
+      for (int i = 0; i < (int)(sizeof(kCurated) / sizeof(kCurated[0])); ++i) if (spec == kCurated[i]) idx = i;
+      if (idx < 0 || idx >= 12) withCancel = false;
+    }
+    ex.bfs(T ? 5 : 4, 1, withCancel ? 1 : 0, false);
   } else if (p == "C02") {
     ex.cfg.checkC01 = false; ex.cfg.checkProto = false; ex.cfg.checkC07 = false; ex.cfg.checkPersist = false;
     ex.bfs(T ? 5 : 4, T ? 1 : 0, 1, false);
@@ -621,6 +647,38 @@ static void lockMatrix(const uv::World& w, vj::Result& res) {
   }
 }
 
+// A condition wait on the explorer thread inside a build can never return: every
+// completion is delivered by this same thread at the notification points, so
+// blocking here means the engine went to sleep although the completion it is
+// waiting for has already been reported (lost wake-up) - or was never going to
+// be.  Verdict, not a harness hang: mark the shared page and leave the child.
+static void blockedInWait() {
+  if (g_current) {
+    std::string cur = g_current;
+    std::string m = "BLOCKED:" + cur;
+    strncpy(g_current, m.c_str(), 65535);
+  }
+  _exit(77);
+}
+extern "C" int pthread_cond_wait(pthread_cond_t* c, pthread_mutex_t* m) {
+  static auto real = (int (*)(pthread_cond_t*, pthread_mutex_t*))dlsym(RTLD_NEXT, "pthread_cond_wait");
+  auto& st = engineThreadState();
+  if (st.inBuild && pthread_equal(st.thread, pthread_self())) blockedInWait();
+  return real(c, m);
+}
+extern "C" int pthread_cond_clockwait(pthread_cond_t* c, pthread_mutex_t* m, clockid_t clk, const struct timespec* ts) {
+  static auto real = (int (*)(pthread_cond_t*, pthread_mutex_t*, clockid_t, const struct timespec*))dlsym(RTLD_NEXT, "pthread_cond_clockwait");
+  auto& st = engineThreadState();
+  if (st.inBuild && pthread_equal(st.thread, pthread_self())) blockedInWait();
+  return real(c, m, clk, ts);
+}
+extern "C" int pthread_cond_timedwait(pthread_cond_t* c, pthread_mutex_t* m, const struct timespec* ts) {
+  static auto real = (int (*)(pthread_cond_t*, pthread_mutex_t*, const struct timespec*))dlsym(RTLD_NEXT, "pthread_cond_timedwait");
+  auto& st = engineThreadState();
+  if (st.inBuild && pthread_equal(st.thread, pthread_self())) blockedInWait();
+  return real(c, m, ts);
+}
+
 // SQLite's busy handler sleeps up to 5 s when the database is locked: virtualised.
 extern "C" int usleep(useconds_t) { return 0; }
 extern "C" unsigned int sleep(unsigned int) { return 0; }
@@ -671,12 +729,16 @@ int main(int argc, char** argv) {
   std::vector<std::string> worlds(std::begin(kCurated), std::end(kCurated));
   if (p == "C07") {
     // all directed graphs on n keys
-    int nmax = T ? 4 : 3;
-    for (int n = 1; n <= nmax; ++n)
-      for (unsigned long long mask = 0; mask < (1ull << (n * n)); ++mask) work.push_back({graphWorld(n, mask), "mem"});
-    if (!T) {
-      // quick: every 16th graph on 4 keys, offset by the seed (the full set is the thorough tier)
-      for (unsigned long long mask = (unsigned long long)(args.seed % 16); mask < (1ull << 16); mask += 16) work.push_back({graphWorld(4, mask), "mem"});
+    // all directed graphs (self-loops included) on up to 4 keys; thorough adds 5 keys with out-degree <= 2
+    for (int n = 1; n <= 4; ++n) {
+      unsigned long long total = 1ull << (n * n), step = 512;
+      for (unsigned long long lo = 0; lo < total; lo += step)
+        work.push_back({"", "@graphs " + std::to_string(n) + " " + std::to_string(lo) + " " + std::to_string(std::min(total, lo + step)) + " 99"});
+    }
+    if (T) {
+      unsigned long long total = 1ull << 25, step = 1ull << 14;
+      for (unsigned long long lo = 0; lo < total; lo += step)
+        work.push_back({"", "@graphs 5 " + std::to_string(lo) + " " + std::to_string(lo + step) + " 2"});
     }
     for (auto& wd : worlds) { work.push_back({wd, "mem"}); work.push_back({wd, "db"}); if (T) work.push_back({wd, "db+force"}); }
   } else if (p == "C06") {
@@ -728,6 +790,12 @@ int main(int argc, char** argv) {
     }
     int st = 0;
     waitpid(pid, &st, 0);
+    if (WIFEXITED(st) && WEXITSTATUS(st) == 77 && strncmp(g_current, "BLOCKED:", 8) == 0) {
+      std::string cur = g_current + 8;
+      res.violate(args.prop + ".blocked-in-wait", "the engine thread blocked in a condition wait inside build() although every completion had been delivered (lost wake-up / wait that nothing can satisfy) while executing: " + cur, cur);
+      res.exhaustive = false;
+      continue;
+    }
     if (!WIFEXITED(st) || WEXITSTATUS(st) != 0) {
       std::string cur = g_current;
       res.violate(args.prop + ".crash", "the process crashed (" + (WIFSIGNALED(st) ? "signal " + std::to_string(WTERMSIG(st)) : "exit " + std::to_string(WEXITSTATUS(st))) +
